@@ -450,6 +450,35 @@ func (e *engine) positionalRenames(fn *ssa.Function) map[string]string {
 	for _, kind := range []string{"param", "free", "local"} {
 		o, c := group(old, kind), group(cur, kind)
 		if len(o) != len(c) {
+			// the group changed shape (a temporary was added or removed): a variable whose type is unique in the
+			// group, before and after, and whose old name is gone while exactly one new name of that type appeared,
+			// is still recognisably the same variable
+			oldNames, curNames := map[string]bool{}, map[string]bool{}
+			for _, v := range o {
+				oldNames[v.name] = true
+			}
+			for _, v := range c {
+				curNames[v.name] = true
+			}
+			count := func(vs []localVar, typ string) int {
+				n := 0
+				for _, v := range vs {
+					if v.typ == typ {
+						n++
+					}
+				}
+				return n
+			}
+			for _, ov := range o {
+				if curNames[ov.name] || count(o, ov.typ) != 1 || count(c, ov.typ) != 1 {
+					continue
+				}
+				for _, cv := range c {
+					if cv.typ == ov.typ && !oldNames[cv.name] {
+						alias[ov.name] = cv.name
+					}
+				}
+			}
 			continue
 		}
 		same := true
